@@ -180,6 +180,7 @@ func parseMessage(ctx context.Context, msgDesc *desc.MessageDescriptor, cache co
 	fields := msgDesc.GetFields()
 	md := &MessageDescriptor{
 		baseId: FieldNumber(math.MaxInt32),
+		name:   msgDesc.GetName(),
 		ids:    util.FieldIDMap{},
 		names:  util.FieldNameMap{},
 	}
